@@ -443,6 +443,8 @@ type FuncSpec struct {
 	Props     []string
 	Requires  []*Clause
 	Ensures   []*Clause
+	Receives  []*Clause // channel invariants: "receives <chan>: P($msg)" (assumed when receiving from <chan>)
+	Callback  bool      // function-type contract of a user callback: its effects are not attributed to the caller's frame
 	Defines   []*Clause // naming clauses: assumed at call sites, not checked (they only introduce a name for the result)
 	MayPanic  []*Clause // the function may panic only in states satisfying one of these (evaluated on entry)
 	Modifies  []*SExpr
@@ -492,6 +494,7 @@ type SpecFile struct {
 	FuncOrder []string
 	SpecFuncs []*SpecFunc
 	Ghosts    map[string]string // ghost variable -> type text
+	LocalGhosts []string
 	Axioms    []*Axiom
 	Lemmas    []*Lemma
 }
@@ -557,7 +560,7 @@ func parseModifies(rest, where string) ([]*SExpr, error) {
 
 var specKeywords = map[string]bool{"func": true, "props": true, "requires": true, "ensures": true, "modifies": true,
 	"loop": true, "invariant": true, "decreases": true, "step": true, "spec": true, "axiom": true, "lemma": true, "trusted": true,
-	"pure": true, "end": true, "allocates": true, "maypanic": true, "ghost": true, "implements": true, "defines": true}
+	"pure": true, "end": true, "allocates": true, "maypanic": true, "ghost": true, "implements": true, "defines": true, "receives": true, "callback": true}
 
 // parseSpecFile reads one verif_contracts.go file.
 func parseSpecFile(path, pkg string) (*SpecFile, error) {
@@ -638,8 +641,13 @@ func parseSpecFile(path, pkg string) (*SpecFile, error) {
 			}
 		case "ghost":
 			f := strings.Fields(rest)
+			if len(f) == 3 && f[0] == "local" {
+				// goroutine-local bookkeeping: not touched by callbacks / havoc-all
+				f = f[1:]
+				sf.LocalGhosts = append(sf.LocalGhosts, f[0])
+			}
 			if len(f) != 2 || !strings.HasPrefix(f[0], "$") {
-				return nil, fmt.Errorf("%s: expected 'ghost $name type'", l.where)
+				return nil, fmt.Errorf("%s: expected 'ghost [local] $name type'", l.where)
 			}
 			sf.Ghosts[f[0]] = f[1]
 		case "implements":
@@ -665,6 +673,22 @@ func parseSpecFile(path, pkg string) (*SpecFile, error) {
 					}
 				}
 			}
+		case "callback":
+			if curF != nil {
+				curF.Callback = true
+			}
+		case "receives":
+			if curF == nil {
+				return nil, fmt.Errorf("%s: receives outside func", l.where)
+			}
+			c, err := parseClause("receives", rest, l.where, curF.Props)
+			if err != nil {
+				return nil, err
+			}
+			if c.Name == "" {
+				return nil, fmt.Errorf("%s: receives needs a channel name: 'receives done: expr'", l.where)
+			}
+			curF.Receives = append(curF.Receives, c)
 		case "defines":
 			if curF == nil {
 				return nil, fmt.Errorf("%s: defines outside func", l.where)
